@@ -228,7 +228,7 @@ theorem invF_step (f : Sem) (j : Job) (cl : Cluster) (s s' : Sys) (st : Step) (h
     split at hs; · cases hs
     rename_i hc
     simp only [Bool.or_eq_true, beq_iff_eq, not_or] at hc
-    cases he : envStep f j s.env es with
+    cases he : envStepP f j s.env es with
     | none => simp [he] at hs
     | some e' =>
       simp only [he, Option.map_some, Option.some.injEq] at hs
